@@ -1,6 +1,6 @@
 (* C19 - Command-line values mean what the manual says. *)
 From Coq Require Import ZArith List Bool.
-From V Require Import Base.Duration Base.Str Model.Flags Model.Pacer Proofs.FlagsProofs.
+From V Require Import Base.Duration Base.Str Model.Flags Model.Pacer Proofs.FlagsProofs Proofs.DecimalProofs.
 Import ListNotations.
 Open Scope Z_scope.
 
@@ -63,6 +63,18 @@ Theorem rate_print_parse_assuming_library_laws : forall (dstr : Z -> list Z),
   rate_set fixed cur (itoa freq ++ 47 :: dstr per) = Some (freq, per).
 Proof. exact rate_print_parse_lemma. Qed.
 Print Assumptions rate_print_parse_assuming_library_laws.
+
+(* the integer law is proved (DecimalProofs): only the printing of durations (time.Duration.String,
+   library code) remains a hypothesis *)
+Theorem rate_print_parse : forall (dstr : Z -> list Z),
+  (forall d, 0 < d < two63 -> parse_duration (dstr d) = Some (d, false) /\ bare_unit (dstr d) = false) ->
+  forall fixed cur freq per, - two63 <= freq < two63 -> freq <> 0 -> 0 < per < two63 ->
+  rate_set fixed cur (itoa freq ++ 47 :: dstr per) = Some (freq, per).
+Proof.
+  intros dstr Hd. apply (rate_print_parse_lemma dstr Hd).
+  intros n Hn. split; [apply atoi_itoa_lemma | apply itoa_no_slash]; exact Hn.
+Qed.
+Print Assumptions rate_print_parse.
 
 (* repeated -header flags accumulate in order, keys byte-for-byte (case preserved) *)
 Theorem headers_set_wellformed : forall h k v pad1 pad2,
